@@ -1,14 +1,21 @@
 // C35 correspondence suite: SuRecord rule cache (Put / Get / Delete / Invalidate / Copy /
 // observers / GetDeps) with generated pure rules installed as Rule_<field> globals, against the
-// Lean record machine Gsu.Model.RecRules (driver drv_c35), plus the direct oracle of the property:
-// the value of a rule field equals the rule evaluated on the record's current field values, and an
-// attached observer is told about every invalidation exactly once per change.
+// Lean record machine Gsu.Model.RecRules (driver drv_c35), plus direct oracles of the property on
+// the implementation:
+//   - value: a rule field equals the rule evaluated on the record's current field values;
+//   - observer set: with every field read (so everything is cached and valid), a change of field
+//     k notifies exactly k and every rule field that (transitively) reads k, each once;
+//   - independence: an operation on one record never changes the recorded dependencies of a
+//     copy / of the record it was copied from.
 //
-// Fields are f0..f3 (plain) and f4..f8 (rule fields; a rule only reads lower-numbered fields, so
-// rules are acyclic chains). Conventions from the design (DESIGN.md C35): Copy() does not copy
-// attached rules, hence global rules; an explicitly assigned rule field is overridden once a
-// dependency changes, hence the generator writes and deletes plain fields only (plus a separate
-// small stream that assigns rule fields, replayed by the model but without the direct oracle).
+// Fields are f0..f3 (plain) and f4..f11 (rule fields; a rule only reads lower-numbered fields, so
+// rules are acyclic). Conventions from the design (DESIGN.md C35): Copy() does not copy attached
+// rules, hence global rules; an explicitly assigned rule field is overridden once a dependency
+// changes, hence the main stream writes plain fields only (it does delete rule members: that
+// leaves the specification value unchanged) and a separate small stream assigns rule fields
+// (replayed by the model, no value oracle). One history in five has guarded rules
+// (`if guard > 0 { return body }`: a rule that yields nothing keeps whatever the field had):
+// replayed by the model, observer-set oracle with lower/upper bounds, no value oracle.
 package main
 
 import (
@@ -23,7 +30,7 @@ import (
 	"verif/harness/lib"
 )
 
-const nPlain, nFields = 4, 9
+const nPlain, nFields = 4, 12
 
 type expr struct {
 	op   byte // 'l' literal, 'f' field, '+', '-', '*'
@@ -62,17 +69,64 @@ func (e *expr) refs(m map[int]bool) {
 	}
 }
 
+type rule struct {
+	guard *expr // nil: unconditional
+	body  *expr
+}
+
+func (ru *rule) src() string {
+	if ru.guard == nil {
+		return "function () { return " + ru.body.src() + " }"
+	}
+	return "function () { if (" + ru.guard.src() + " > 0) { return " + ru.body.src() + " } }"
+}
+
+func (ru *rule) rpn() string {
+	if ru.guard == nil {
+		return ru.body.rpn()
+	}
+	return ru.guard.rpn() + " ? " + ru.body.rpn()
+}
+
+// alwaysRead: the fields read by every evaluation of the rule
+func (ru *rule) alwaysRead() map[int]bool {
+	m := map[int]bool{}
+	if ru.guard != nil {
+		ru.guard.refs(m)
+	} else {
+		ru.body.refs(m)
+	}
+	return m
+}
+
+func (ru *rule) allRefs() map[int]bool {
+	m := map[int]bool{}
+	if ru.guard != nil {
+		ru.guard.refs(m)
+	}
+	ru.body.refs(m)
+	return m
+}
+
+func genLeaf(r *rand.Rand, below int) *expr {
+	if r.Intn(5) == 0 {
+		return &expr{op: 'l', n: 1 + r.Intn(3)} // not 0: the compiler folds 0*x to 0 without reading x
+	}
+	// prefer rule fields to get chains
+	if below > nPlain && r.Intn(2) == 0 {
+		return &expr{op: 'f', n: nPlain + r.Intn(below-nPlain)}
+	}
+	return &expr{op: 'f', n: r.Intn(below)}
+}
+
 func genExpr(r *rand.Rand, below, depth int) *expr {
 	if depth == 0 || r.Intn(3) == 0 {
-		if r.Intn(5) == 0 {
-			return &expr{op: 'l', n: 1 + r.Intn(3)} // not 0: the compiler folds 0*x to 0 without reading x
-		}
-		// prefer the directly preceding rule field to get chains
-		if below > nPlain && r.Intn(2) == 0 {
-			return &expr{op: 'f', n: nPlain + r.Intn(below-nPlain)}
-		}
-		return &expr{op: 'f', n: r.Intn(below)}
+		return genLeaf(r, below)
 	}
+	return genBin(r, below, depth)
+}
+
+func genBin(r *rand.Rand, below, depth int) *expr {
 	a, b := genExpr(r, below, depth-1), genExpr(r, below, depth-1)
 	if a.op == 'l' && b.op == 'l' { // constant subexpressions are folded (3-3 = 0, then 0*x = 0)
 		b = &expr{op: 'f', n: r.Intn(below)}
@@ -82,14 +136,15 @@ func genExpr(r *rand.Rand, below, depth int) *expr {
 
 // spec: the value the rule would compute from the record's current plain field values
 type spec struct {
-	rules map[int]*expr
+	rules map[int]*rule
 	plain map[int]int
 }
 
-// field returns the value of f and whether it is a number (false: "", the record default)
+// field returns the value of f and whether it is a number (false: "", the record default).
+// Only used in histories without guarded rules.
 func (s *spec) field(f int) (int, bool) {
-	if e, ok := s.rules[f]; ok {
-		return s.eval(e)
+	if ru, ok := s.rules[f]; ok {
+		return s.eval(ru.body)
 	}
 	v, ok := s.plain[f]
 	return v, ok
@@ -113,20 +168,25 @@ func (s *spec) eval(e *expr) (int, bool) {
 	return x * y, true
 }
 
-// dependsOn: does rule field k (transitively) read f
-func (s *spec) dependsOn(k, f int) bool {
-	e, ok := s.rules[k]
-	if !ok {
-		return false
-	}
-	m := map[int]bool{}
-	e.refs(m)
-	for g := range m {
-		if g == f || s.dependsOn(g, f) {
-			return true
+// closure: the rule fields that (transitively) read k; refs selects the edges
+func (s *spec) closure(k int, refs func(*rule) map[int]bool) map[int]bool {
+	out := map[int]bool{}
+	for changed := true; changed; {
+		changed = false
+		for f, ru := range s.rules {
+			if out[f] {
+				continue
+			}
+			for g := range refs(ru) {
+				if g == k || out[g] {
+					out[f] = true
+					changed = true
+					break
+				}
+			}
 		}
 	}
-	return false
+	return out
 }
 
 func fname(f int) Value { return SuStr("f" + strconv.Itoa(f)) }
@@ -141,50 +201,354 @@ func valText(v Value) string {
 	return "?" + v.String()
 }
 
+func fieldsText(l []int) string {
+	if len(l) == 0 {
+		return "-"
+	}
+	ss := make([]string, len(l))
+	for j, f := range l {
+		ss[j] = strconv.Itoa(f)
+	}
+	return strings.Join(ss, ",")
+}
+
 type slot struct {
 	rec     *SuRecord
 	plain   map[int]int  // current plain values (the specification state)
-	tainted map[int]bool // rule fields that were assigned explicitly (no direct oracle)
+	tainted map[int]bool // rule fields that were assigned explicitly (no value oracle)
 	log     *[]int
+}
+
+type history struct {
+	t       *lib.Trace
+	r       *rand.Rand
+	th      *Thread
+	sp      *spec
+	slots   []*slot
+	hist    []string
+	guarded bool // some rule has a guard
+	assigns bool // the stream that also assigns rule fields
+}
+
+func (h *history) q(op, out string) {
+	h.hist = append(h.hist, op+" -> "+out)
+	h.t.Q(op, out)
+}
+
+func (h *history) fail(sig, desc string) {
+	hh := h.hist
+	if len(hh) > 90 {
+		hh = hh[len(hh)-90:]
+	}
+	h.t.Fail(sig, desc+" | history: "+strings.Join(hh, "; "))
+}
+
+func (h *history) valueOracle(s *slot) bool {
+	return !h.guarded && !h.assigns && len(s.tainted) == 0
+}
+
+// depsText: the recorded dependencies of every rule field (GetDeps has no side effects)
+func depsText(s *slot) string {
+	var sb strings.Builder
+	for f := nPlain; f < nFields; f++ {
+		d := strings.Split(ToStr(s.rec.GetDeps("f"+strconv.Itoa(f))), ",")
+		sort.Strings(d)
+		sb.WriteString(strconv.Itoa(f) + ":" + strings.Join(d, ",") + " ")
+	}
+	return sb.String()
+}
+
+// around runs op on slot i and checks that the other record's dependencies are untouched
+func (h *history) around(i int, what string, op func()) {
+	o := h.slots[1-i]
+	before := depsText(o)
+	op()
+	if after := depsText(o); after != before {
+		h.fail("copy-shares-dependents", fmt.Sprintf("%s on record %d changed the recorded dependencies of record %d from {%s} to {%s}",
+			what, i, 1-i, before, after))
+	}
+}
+
+func (h *history) attach(i int) {
+	s := h.slots[i]
+	if s.log != nil {
+		return
+	}
+	lg := &[]int{}
+	s.log = lg
+	s.rec.Observer(&SuBuiltin1{Fn: func(m Value) Value {
+		f, _ := strconv.Atoi(ToStr(m)[1:])
+		*lg = append(*lg, f)
+		return nil
+	}, BuiltinParams: BuiltinParams{ParamSpec: ParamSpec{Nparams: 1, Flags: []Flag{0},
+		Names: []string{"member"}}}})
+	h.q(fmt.Sprintf("obs %d", i), "ok")
+}
+
+// takeLog replays the observer log and checks "exactly once per change".
+// full: every field was read just before the change, so the notified set is determined by the
+// rule texts alone.
+func (h *history) takeLog(i int, changed int, isChange, full bool) {
+	s := h.slots[i]
+	if s.log == nil {
+		return
+	}
+	l := append([]int(nil), *s.log...)
+	*s.log = (*s.log)[:0]
+	h.q(fmt.Sprintf("log %d", i), fieldsText(l))
+	seen := map[int]bool{}
+	clean := !h.assigns && len(s.tainted) == 0
+	max := h.sp.closure(changed, (*rule).allRefs)
+	for _, f := range l {
+		if seen[f] {
+			h.fail("observer-twice", fmt.Sprintf("observer told twice about f%d for one change of f%d: %v", f, changed, l))
+		}
+		seen[f] = true
+		if f != changed && !max[f] && clean {
+			h.fail("observer-unrelated", fmt.Sprintf("observer told about f%d which does not depend on the changed f%d: %v", f, changed, l))
+		}
+	}
+	if isChange && !seen[changed] {
+		h.fail("observer-missed", fmt.Sprintf("observer not told about the changed field f%d: %v", changed, l))
+	}
+	if !isChange && len(l) > 0 {
+		h.fail("observer-spurious", fmt.Sprintf("observer told %v although f%d did not change", l, changed))
+	}
+	if full && isChange && clean {
+		for f := range h.sp.closure(changed, (*rule).alwaysRead) {
+			if !seen[f] {
+				h.fail("observer-missed-dependent", fmt.Sprintf(
+					"all fields were read (cached and valid); then f%d changed: the observer was told %v but not about f%d, whose rule reads f%d (transitively)",
+					changed, l, f, changed))
+			}
+		}
+		h.t.Count("oracle=observer-set")
+	}
+}
+
+func (h *history) put(i, f, v int, full bool) {
+	s := h.slots[i]
+	old, had := s.plain[f]
+	var cached Value
+	if f >= nPlain {
+		cached = s.rec.ToObject().GetIfPresent(nil, fname(f))
+	}
+	h.around(i, "Put", func() {
+		if msg := lib.Catch(func() { s.rec.Put(h.th, fname(f), IntVal(v)) }); msg != "" {
+			h.fail("put-panic", msg)
+		}
+	})
+	h.q(fmt.Sprintf("put %d %d %d", i, f, v), "ok")
+	isChange := !(had && old == v)
+	if f >= nPlain {
+		if _, isRule := h.sp.rules[f]; isRule {
+			s.tainted[f] = true
+		} else {
+			s.plain[f] = v
+		}
+		isChange = cached == nil || !cached.Equal(IntVal(v))
+		h.t.Count("op=put-rulefield")
+	} else {
+		s.plain[f] = v
+		h.t.Count("op=put")
+	}
+	if !isChange {
+		h.t.Count("op=put-same-value")
+	}
+	h.takeLog(i, f, isChange, full)
+}
+
+func (h *history) get(i, f int, sig string) {
+	s := h.slots[i]
+	var got Value
+	var msg string
+	h.around(i, "Get", func() { msg = lib.Catch(func() { got = s.rec.Get(h.th, fname(f)) }) })
+	if msg != "" {
+		h.fail("get-panic", msg)
+		return
+	}
+	out := valText(got)
+	h.q(fmt.Sprintf("get %d %d", i, f), out)
+	if h.valueOracle(s) {
+		h.sp.plain = s.plain
+		exp, ok := h.sp.field(f)
+		expText := "-"
+		if ok {
+			expText = strconv.Itoa(exp)
+		}
+		if out != expText {
+			if f < nPlain {
+				sig = "field-value"
+			}
+			h.fail(sig, fmt.Sprintf("get f%d of record %d = %s but the rule on the current fields %v gives %s", f, i, out, s.plain, expText))
+		}
+		h.t.Count("oracle=rule-current")
+	}
+	if _, isRule := h.sp.rules[f]; isRule {
+		h.t.Count("op=get-rule")
+	} else {
+		h.t.Count("op=get-plain")
+	}
+}
+
+func (h *history) readAll(i int) {
+	for f := 0; f < nFields; f++ {
+		h.get(i, f, "rule-stale")
+	}
+	if s := h.slots[i]; s.log != nil && len(*s.log) > 0 {
+		h.fail("observer-on-get", fmt.Sprintf("reading fields notified the observer: %v", *s.log))
+		*s.log = (*s.log)[:0]
+	}
+}
+
+func (h *history) del(i, f int, full bool) {
+	s := h.slots[i]
+	var res bool
+	h.around(i, "Delete", func() {
+		if msg := lib.Catch(func() { res = s.rec.Delete(h.th, fname(f)) }); msg != "" {
+			h.fail("delete-panic", msg)
+		}
+	})
+	h.q(fmt.Sprintf("del %d %d", i, f), lib.B(res))
+	if _, isRule := h.sp.rules[f]; !isRule {
+		_, had := s.plain[f]
+		if res != had {
+			h.fail("delete-result", fmt.Sprintf("delete f%d returned %v, present=%v", f, res, had))
+		}
+		delete(s.plain, f)
+		h.t.Count("op=delete")
+	} else {
+		// deleting the cached value of a rule field leaves the specification value unchanged
+		delete(s.tainted, f)
+		h.t.Count("op=delete-rulefield")
+	}
+	h.takeLog(i, f, res, full && res)
+}
+
+func (h *history) invalidate(i, f int, full bool) {
+	s := h.slots[i]
+	h.around(i, "Invalidate", func() {
+		if msg := lib.Catch(func() { s.rec.Invalidate(h.th, "f"+strconv.Itoa(f)) }); msg != "" {
+			h.fail("invalidate-panic", msg)
+		}
+	})
+	h.q(fmt.Sprintf("inv %d %d", i, f), "ok")
+	h.takeLog(i, f, true, full)
+	h.t.Count("op=invalidate")
+}
+
+func (h *history) copyTo(i int) {
+	s := h.slots[i]
+	d := 1 - i
+	c := s.rec.Copy().(*SuRecord)
+	ns := &slot{rec: c, plain: map[int]int{}, tainted: map[int]bool{}}
+	for a, b := range s.plain {
+		ns.plain[a] = b
+	}
+	for a := range s.tainted {
+		ns.tainted[a] = true
+	}
+	h.slots[d] = ns
+	h.q(fmt.Sprintf("copy %d %d", i, d), "ok")
+	if depsText(ns) != depsText(s) {
+		h.fail("copy-deps-differ", "Copy() does not carry the recorded dependencies")
+	}
+	h.t.Count("op=copy")
+}
+
+func (h *history) getDeps(i, f int) {
+	s := h.slots[i]
+	d := ToStr(s.rec.GetDeps("f" + strconv.Itoa(f)))
+	var fs []int
+	for _, x := range strings.Split(d, ",") {
+		if x != "" {
+			g, _ := strconv.Atoi(x[1:])
+			fs = append(fs, g)
+		}
+	}
+	sort.Ints(fs)
+	h.q(fmt.Sprintf("deps %d %d", i, f), fieldsText(fs))
+	// every recorded dependency is a field the rule really reads
+	if ru, ok := h.sp.rules[f]; ok {
+		m := ru.allRefs()
+		for _, g := range fs {
+			if !m[g] {
+				h.fail("deps-extra", fmt.Sprintf("GetDeps(f%d) lists f%d which the rule %s does not read", f, g, ru.src()))
+			}
+		}
+	}
+	h.t.Count("op=getdeps")
+}
+
+// change performs one change of field k (put of a new value / delete / Invalidate) after reading
+// every field, so that the observer-set oracle applies
+func (h *history) fullChange(i int) {
+	s := h.slots[i]
+	h.attach(i)
+	h.readAll(i)
+	switch h.r.Intn(4) {
+	case 0:
+		h.invalidate(i, h.r.Intn(nFields), true) // incl. fields without a stored value
+	case 1:
+		var present []int
+		for f := range s.plain {
+			if f < nPlain {
+				present = append(present, f)
+			}
+		}
+		sort.Ints(present)
+		if len(present) > 0 {
+			h.del(i, present[h.r.Intn(len(present))], true)
+			break
+		}
+		fallthrough
+	default:
+		f := h.r.Intn(nPlain)
+		v := h.r.Intn(5)
+		if old, had := s.plain[f]; had && old == v {
+			v = (v + 1) % 5
+		}
+		h.put(i, f, v, true)
+	}
+	h.readAll(i)
 }
 
 func main() {
 	t := lib.Open()
 	defer t.Close()
 	r := lib.Rand()
-	n := lib.N(1500)
+	n := lib.N(1200)
 	th := NewThread(nil)
-	var hist []string
-	q := func(op, out string) {
-		hist = append(hist, op+" -> "+out)
-		t.Q(op, out)
-	}
-	fail := func(sig, desc string) {
-		h := hist
-		if len(h) > 80 {
-			h = h[len(h)-80:]
+	for hn := 0; hn < n; hn++ {
+		h := &history{t: t, r: r, th: th, sp: &spec{rules: map[int]*rule{}}}
+		h.q("reset", "ok")
+		h.assigns = r.Intn(10) == 0
+		h.guarded = !h.assigns && r.Intn(5) == 0
+		hub := -1 // hub mode: (almost) every rule reads one plain field directly
+		if r.Intn(3) == 0 {
+			hub = r.Intn(nPlain)
+			t.Count("history=hub")
 		}
-		t.Fail(sig, desc+" | history: "+strings.Join(h, "; "))
-	}
-	for h := 0; h < n; h++ {
-		hist = hist[:0]
-		q("reset", "ok")
-		sp := &spec{rules: map[int]*expr{}}
-		assignRules := r.Intn(8) == 0 // the stream that also assigns rule fields
 		for f := nPlain; f < nFields; f++ {
-			if r.Intn(6) == 0 {
-				Global.TestDef("Rule_f"+strconv.Itoa(f), nil) // no rule: an ordinary field
+			name := "Rule_f" + strconv.Itoa(f)
+			if r.Intn(8) == 0 {
+				Global.TestDef(name, nil) // no rule: an ordinary field
 				t.Count("rulefield=norule")
 				continue
 			}
-			e := genExpr(r, f, 1+r.Intn(2))
-			sp.rules[f] = e
-			Global.TestDef("Rule_f"+strconv.Itoa(f), compile.Constant("function () { return "+e.src()+" }"))
-			q(fmt.Sprintf("rule %d %s", f, e.rpn()), "ok")
-			m := map[int]bool{}
-			e.refs(m)
+			ru := &rule{body: genExpr(r, f, 1+r.Intn(2))}
+			if hub >= 0 && r.Intn(8) != 0 {
+				ru.body = &expr{op: "+-"[r.Intn(2)], a: &expr{op: 'f', n: hub}, b: ru.body}
+			}
+			if h.guarded && r.Intn(2) == 0 {
+				ru.guard = genBin(r, f, 1) // always arithmetic: a number, never ""
+				t.Count("rule=guarded")
+			}
+			h.sp.rules[f] = ru
+			Global.TestDef(name, compile.Constant(ru.src()))
+			h.q(fmt.Sprintf("rule %d %s", f, ru.rpn()), "ok")
 			chain := false
-			for g := range m {
+			for g := range ru.allRefs() {
 				if g >= nPlain {
 					chain = true
 				}
@@ -198,56 +562,37 @@ func main() {
 		mk := func() *slot {
 			return &slot{rec: NewSuRecord(), plain: map[int]int{}, tainted: map[int]bool{}}
 		}
-		slots := []*slot{mk(), mk()}
-		attach := func(i int) {
-			s := slots[i]
-			lg := &[]int{}
-			s.log = lg
-			s.rec.Observer(&SuBuiltin1{Fn: func(m Value) Value {
-				f, _ := strconv.Atoi(ToStr(m)[1:])
-				*lg = append(*lg, f)
-				return nil
-			}, BuiltinParams: BuiltinParams{ParamSpec: ParamSpec{Nparams: 1, Flags: []Flag{0},
-				Names: []string{"member"}}}})
-			q(fmt.Sprintf("obs %d", i), "ok")
-		}
+		h.slots = []*slot{mk(), mk()}
 		if r.Intn(2) == 0 {
-			attach(0)
+			h.attach(0)
 			t.Count("history=with-observer")
 		}
-		// takeLog replays the observer log and checks "exactly once per change"
-		takeLog := func(i int, changed int, isChange bool) {
-			s := slots[i]
-			if s.log == nil {
-				return
-			}
-			l := *s.log
-			*s.log = (*s.log)[:0]
-			out := "-"
-			if len(l) > 0 {
-				ss := make([]string, len(l))
-				for j, f := range l {
-					ss[j] = strconv.Itoa(f)
-				}
-				out = strings.Join(ss, ",")
-			}
-			q(fmt.Sprintf("log %d", i), out)
-			seen := map[int]bool{}
-			for _, f := range l {
-				if seen[f] {
-					fail("observer-twice", fmt.Sprintf("observer told twice about f%d for one change of f%d: %v", f, changed, l))
-				}
-				seen[f] = true
-				if f != changed && !sp.dependsOn(f, changed) && len(s.tainted) == 0 && !assignRules {
-					fail("observer-unrelated", fmt.Sprintf("observer told about f%d which does not depend on the changed f%d: %v", f, changed, l))
+		// scripted opening (one history in three): evaluate some rules, copy, let the copy and
+		// the original each discover further dependencies, then change fields in both
+		if r.Intn(3) == 0 {
+			for f := 0; f < nPlain; f++ {
+				if r.Intn(4) != 0 {
+					h.put(0, f, r.Intn(5), false)
 				}
 			}
-			if isChange && !seen[changed] {
-				fail("observer-missed", fmt.Sprintf("observer not told about the changed field f%d: %v", changed, l))
+			perm := r.Perm(nFields - nPlain)
+			k := 1 + r.Intn(len(perm)-1)
+			for _, p := range perm[:k] {
+				h.get(0, nPlain+p, "rule-stale")
 			}
-			if !isChange && len(l) > 0 {
-				fail("observer-spurious", fmt.Sprintf("observer told %v although f%d was set to its old value", l, changed))
+			h.copyTo(0)
+			for j, p := range perm[k:] { // alternate: copy first, then original
+				h.get(1-j%2, nPlain+p, "rule-stale")
 			}
+			for _, i := range []int{1, 0} {
+				f := r.Intn(nPlain)
+				if hub >= 0 {
+					f = hub
+				}
+				h.put(i, f, 5+r.Intn(3), false) // a value the field did not have
+				h.readAll(i)
+			}
+			t.Count("history=copy-divergence")
 		}
 		steps := 15 + r.Intn(40)
 		for st := 0; st < steps; st++ {
@@ -255,190 +600,54 @@ func main() {
 			if r.Intn(4) == 0 {
 				i = 1
 			}
-			s := slots[i]
-			switch k := r.Intn(20); {
-			case k < 6: // set a plain field
+			switch k := r.Intn(22); {
+			case k < 6:
 				f := r.Intn(nPlain)
-				if assignRules && r.Intn(3) == 0 {
+				if h.assigns && r.Intn(3) == 0 {
 					f = nPlain + r.Intn(nFields-nPlain)
 				}
-				v := r.Intn(5)
-				old, had := s.plain[f]
-				var cached Value
-				if f >= nPlain {
-					cached = s.rec.ToObject().GetIfPresent(nil, fname(f))
-				}
-				msg := lib.Catch(func() { s.rec.Put(th, fname(f), IntVal(v)) })
-				if msg != "" {
-					fail("put-panic", msg)
-				}
-				q(fmt.Sprintf("put %d %d %d", i, f, v), "ok")
-				isChange := !(had && old == v)
-				if f >= nPlain {
-					if _, isRule := sp.rules[f]; isRule {
-						s.tainted[f] = true
-					} else {
-						s.plain[f] = v
-					}
-					isChange = cached == nil || !cached.Equal(IntVal(v))
-					t.Count("op=put-rulefield")
-				} else {
-					s.plain[f] = v
-					t.Count("op=put")
-				}
-				if !isChange {
-					t.Count("op=put-same-value")
-				}
-				takeLog(i, f, isChange)
-			case k < 14: // get
-				f := r.Intn(nFields)
-				var got Value
-				msg := lib.Catch(func() { got = s.rec.Get(th, fname(f)) })
-				if msg != "" {
-					fail("get-panic", msg)
-					continue
-				}
-				out := valText(got)
-				q(fmt.Sprintf("get %d %d", i, f), out)
-				// direct oracle: the rule evaluated on the current field values
-				clean := len(s.tainted) == 0
-				if clean {
-					sp.plain = s.plain
-					exp, ok := sp.field(f)
-					expText := "-"
-					if ok {
-						expText = strconv.Itoa(exp)
-					}
-					if out != expText {
-						sig := "rule-stale"
-						if f < nPlain {
-							sig = "field-value"
-						}
-						fail(sig, fmt.Sprintf("get f%d = %s but the rule on the current fields %v gives %s", f, out, s.plain, expText))
-					}
-					t.Count("oracle=rule-current")
-				}
-				if _, isRule := sp.rules[f]; isRule {
-					t.Count("op=get-rule")
-				} else {
-					t.Count("op=get-plain")
-				}
-			case k < 16: // delete a plain field
+				h.put(i, f, r.Intn(5), false)
+			case k < 13:
+				h.get(i, r.Intn(nFields), "rule-stale")
+			case k < 15:
 				f := r.Intn(nPlain)
-				var res bool
-				msg := lib.Catch(func() { res = s.rec.Delete(th, fname(f)) })
-				if msg != "" {
-					fail("delete-panic", msg)
+				if !h.assigns && r.Intn(3) == 0 {
+					f = nPlain + r.Intn(nFields-nPlain) // drop a cached rule value
 				}
-				q(fmt.Sprintf("del %d %d", i, f), lib.B(res))
-				_, had := s.plain[f]
-				if res != had {
-					fail("delete-result", fmt.Sprintf("delete f%d returned %v, present=%v", f, res, had))
+				h.del(i, f, false)
+			case k < 16:
+				h.copyTo(i)
+			case k < 17:
+				h.invalidate(i, r.Intn(nFields), false)
+			case k < 18:
+				h.getDeps(i, nPlain+r.Intn(nFields-nPlain))
+			case k < 20:
+				if !h.assigns {
+					h.fullChange(i)
 				}
-				delete(s.plain, f)
-				takeLog(i, f, had)
-				t.Count("op=delete")
-			case k < 17: // copy into the other slot
-				d := 1 - i
-				c := s.rec.Copy().(*SuRecord)
-				ns := &slot{rec: c, plain: map[int]int{}, tainted: map[int]bool{}}
-				for a, b := range s.plain {
-					ns.plain[a] = b
-				}
-				for a := range s.tainted {
-					ns.tainted[a] = true
-				}
-				slots[d] = ns
-				q(fmt.Sprintf("copy %d %d", i, d), "ok")
-				t.Count("op=copy")
-			case k < 18: // Invalidate a rule field
-				f := nPlain + r.Intn(nFields-nPlain)
-				msg := lib.Catch(func() { s.rec.Invalidate(th, "f"+strconv.Itoa(f)) })
-				if msg != "" {
-					fail("invalidate-panic", msg)
-				}
-				q(fmt.Sprintf("inv %d %d", i, f), "ok")
-				if s.log != nil {
-					l := *s.log
-					*s.log = (*s.log)[:0]
-					out := "-"
-					if len(l) > 0 {
-						ss := make([]string, len(l))
-						for j, g := range l {
-							ss[j] = strconv.Itoa(g)
-						}
-						out = strings.Join(ss, ",")
-					}
-					q(fmt.Sprintf("log %d", i), out)
-				}
-				t.Count("op=invalidate")
-			case k < 19: // GetDeps
-				f := nPlain + r.Intn(nFields-nPlain)
-				d := ToStr(s.rec.GetDeps("f" + strconv.Itoa(f)))
-				var fs []int
-				for _, x := range strings.Split(d, ",") {
-					if x != "" {
-						g, _ := strconv.Atoi(x[1:])
-						fs = append(fs, g)
-					}
-				}
-				sort.Ints(fs)
-				out := "-"
-				if len(fs) > 0 {
-					ss := make([]string, len(fs))
-					for j, g := range fs {
-						ss[j] = strconv.Itoa(g)
-					}
-					out = strings.Join(ss, ",")
-				}
-				q(fmt.Sprintf("deps %d %d", i, f), out)
-				// every recorded dependency is a field the rule really reads
-				if e, ok := sp.rules[f]; ok {
-					m := map[int]bool{}
-					e.refs(m)
-					for _, g := range fs {
-						if !m[g] {
-							fail("deps-extra", fmt.Sprintf("GetDeps(f%d) lists f%d which the rule %s does not read", f, g, e.src()))
-						}
-					}
-				}
-				t.Count("op=getdeps")
 			default:
-				if s.log == nil {
-					attach(i)
+				if h.slots[i].log == nil {
+					h.attach(i)
 					t.Count("op=observer")
 				}
 			}
 		}
-		// final sweep: every rule field of every slot is current
-		for i, s := range slots {
-			if len(s.tainted) > 0 {
-				continue
-			}
-			sp.plain = s.plain
+		// final sweep: every field of every record is current
+		for i := range h.slots {
 			for f := nFields - 1; f >= 0; f-- {
-				got := valText(s.rec.Get(th, fname(f)))
-				q(fmt.Sprintf("get %d %d", i, f), got)
-				exp, ok := sp.field(f)
-				expText := "-"
-				if ok {
-					expText = strconv.Itoa(exp)
-				}
-				if got != expText {
-					fail("rule-stale", fmt.Sprintf("final get f%d = %s, rule on current fields %v gives %s", f, got, s.plain, expText))
-				}
-			}
-			if s.log != nil {
-				*s.log = (*s.log)[:0]
+				h.get(i, f, "rule-stale")
 			}
 		}
-		if assignRules {
+		switch {
+		case h.assigns:
 			t.Count("history=assigns-rule-fields")
-		} else {
+		case h.guarded:
+			t.Count("history=guarded-rules")
+		default:
 			t.Count("history=plain-writes-only")
 		}
-		if h < 2 {
-			t.Sample(strings.Join(hist, "; "))
+		if hn < 2 {
+			t.Sample(strings.Join(h.hist, "; "))
 		}
 	}
 }
